@@ -25,6 +25,9 @@ Solve == /\ Is("Solve") /\ l' = l + 1
          /\ (Ev.status # "failed" => Ev.finite)
          /\ ((Ev.solver = "augmented-lagrangian" /\ Ev.status = "converged") => Ev.feasOK)   \* every |h_j| and max(0, g_i) <= epsilon
          /\ Ev.fcalls <= Ev.nF /\ Ev.gcalls <= Ev.nG
+         \* C02, budget clause for these solvers: at most max_outer_iters inner solves, each exceeding solver::max_evals by at most one
+         \* outer iteration of the inner (default) solver, plus the evaluation of the objective at the start and after every inner solve
+         /\ Ev.nF + Ev.nG <= Ev.maxOuters * (Ev.maxEvals + 1100 + 8 * Ev.n + 2) + 2
 Next == Pen \/ Solve
 Init == l = 1
 Spec == Init /\ [][Next]_l
